@@ -267,6 +267,21 @@ Theorem C08_closed_reaches_live :
 Proof. exact closed_reaches_live. Qed.
 Print Assumptions C08_closed_reaches_live.
 
+(* Established and Closed are paired: for every history (kills at any point, any capacity), every
+   protocol that is alive at the end has been handed exactly the accepted established / closed
+   reports of the history, each once and in order (conn_reports is computed from the inputs and
+   their result codes alone, it does not depend on the protocol). So a protocol told "established"
+   for a connection is told "closed" for it exactly when, and as often as, the connection task
+   reports it — once — unless the protocol exits first; and by the conservation theorem of the
+   live channel these events are delivered in that order. *)
+Theorem C08_established_closed_paired :
+  forall l nproto cap p ch,
+  nth_error (r_ch (d_s (dfinal (dinit nproto cap) l))) p = Some ch ->
+  is_dead (dfinal (dinit nproto cap) l) (N.of_nat p) = false ->
+  filter is_conn_item (racc ch) = conn_reports l (drun (dinit nproto cap) l).
+Proof. exact established_closed_paired. Qed.
+Print Assumptions C08_established_closed_paired.
+
 (* the repaired code never gives a connection up: d_gone stays empty *)
 Theorem C08_no_connection_given_up :
   forall d o, d_gone d = [] -> d_gone (fst (dstep d o)) = [].
